@@ -144,3 +144,177 @@ CONTRACTS.update({
     ),
     F + '::get_lagrange_vals': dict(requires=LG_REQ, modifies=['vals'], ensures=LG_ENS),
 })
+
+
+# ---------------------------------------------------------------------------
+# poloidal advection kernels (C12)
+# ---------------------------------------------------------------------------
+
+PHI = 'kts1Phi, deg1Phi, kts2Phi, deg2Phi, coeffsPhi'
+POL = 'kts1Pol, deg1Pol, kts2Pol, deg2Pol, coeffsPol'
+FEQ2 = 'f_eq({r}, v, CN0, kN0, deltaRN0, rp, CTi, kTi, deltaRTi)'
+RMAX = 'rPts[len(rPts) - 1]'
+
+
+def heun(a, b, body):
+    """Bind, for node (theta_a, r_b), the quantities of the property statement:
+    a0 = d_r phi / r, b0 = d_theta phi / r at the node; (q1, r1) the Euler foot; a1, b1 the drift there (0 outside the
+    radial domain); (q2, r2) the trapezoidal (Heun) foot.  body may use a0,b0,q1,r1,a1,b1,q2,r2."""
+    return (
+        'let(S2(qPts[{a}], rPts[{b}], {P}, 0, 1) / rPts[{b}], lambda a0: '
+        'let(S2(qPts[{a}], rPts[{b}], {P}, 1, 0) / rPts[{b}], lambda b0: '
+        'let((qPts[{a}] - a0 * (dt / B0)) % (2 * pi), lambda q1: '
+        'let(rPts[{b}] + b0 * (dt / B0), lambda r1: '
+        'let((S2(q1, r1, {P}, 0, 1) / r1) if (not (r1 < rPts[0] or r1 > {RM})) else 0.0, lambda a1: '
+        'let((S2(q1, r1, {P}, 1, 0) / r1) if (not (r1 < rPts[0] or r1 > {RM})) else 0.0, lambda b1: '
+        'let((qPts[{a}] - (a0 + a1) * (0.5 * (dt / B0))) % (2 * pi), lambda q2: '
+        'let(rPts[{b}] + (b0 + b1) * (0.5 * (dt / B0)), lambda r2: {body}))))))))'
+    ).format(a=a, b=b, P=PHI, RM=RMAX, body=body)
+
+
+def final_value(q2, r2):
+    """Value the step assigns for a foot (q2, r2): boundary value outside the radial domain, else the 2-D spline of f."""
+    inner = 'S2(%s %% (2 * pi), %s, %s, 0, 0)' % (q2, r2, POL)
+    return ('((0.0 if ({r} < rPts[0] or {r} > {RM}) else {S}) if nulBound else '
+            '({F0} if {r} < rPts[0] else ({F1} if {r} > {RM} else {S})))').format(
+        r=r2, RM=RMAX, S=inner, F0=FEQ2.format(r='rPts[0]'), F1=FEQ2.format(r=r2))
+
+
+WORK = ['drPhi_0', 'dthetaPhi_0', 'drPhi_k', 'dthetaPhi_k', 'endPts_k1_q', 'endPts_k1_r', 'endPts_k2_q', 'endPts_k2_r']
+POL_REQ = (['len(rPts) >= 1', 'B0 != 0', 'forall(0, len(rPts), lambda b: rPts[b] > 0)',
+            'spl2_ok(%s)' % PHI, 'spl2_ok(%s)' % POL, 'shape(f)[0] >= len(qPts)', 'shape(f)[1] >= len(rPts)']
+           + ['shape(%s)[0] >= len(qPts) and shape(%s)[1] >= len(rPts)' % (w, w) for w in WORK])
+
+NQ, NR = 'len(qPts)', 'len(rPts)'
+K2_OK = 'endPts_k2_q[{a}, {b}] == q2 and endPts_k2_r[{a}, {b}] == r2'
+RAW = ('drPhi_0[{a}, {b}] == S2(qPts[{a}], rPts[{b}], %s, 0, 1) and dthetaPhi_0[{a}, {b}] == S2(qPts[{a}], rPts[{b}], %s, 1, 0)' % (PHI, PHI))
+
+
+def k2_ok(a, b):
+    return heun(a, b, K2_OK.format(a=a, b=b))
+
+
+def f_ok(a, b):
+    return heun(a, b, 'f[%s, %s] == %s' % (a, b, final_value('q2', 'r2')))
+
+
+EXPL_LOOPS = {
+    # phase 1: feet
+    'for i in range(nPts_q)': dict(inv=[
+        'forall(0, i, 0, %s, lambda a, b: %s)' % (NR, k2_ok('a', 'b')),
+        'forall(i, %s, 0, %s, lambda a, b: %s)' % (NQ, NR, RAW.format(a='a', b='b'))]),
+    'for j in range(nPts_r)': dict(inv=[
+        'forall(0, i, 0, %s, lambda a, b: %s)' % (NR, k2_ok('a', 'b')),
+        'forall(0, j, lambda b: %s)' % k2_ok('i', 'b'),
+        'forall(i + 1, %s, 0, %s, lambda a, b: %s)' % (NQ, NR, RAW.format(a='a', b='b')),
+        'forall(j, %s, lambda b: %s)' % (NR, RAW.format(a='i', b='b'))]),
+}
+for sfx in (' #2', ' #3'):
+    # phase 2: values (one pair of loops per boundary mode)
+    EXPL_LOOPS['for i in range(nPts_q)' + sfx] = dict(inv=[
+        'forall(0, i, 0, %s, lambda a, b: %s)' % (NR, f_ok('a', 'b')),
+        'forall(i, %s, 0, %s, lambda a, b: %s)' % (NQ, NR, k2_ok('a', 'b'))])
+    EXPL_LOOPS['for j in range(nPts_r)' + sfx] = dict(inv=[
+        'forall(0, i, 0, %s, lambda a, b: %s)' % (NR, f_ok('a', 'b')),
+        'forall(0, j, lambda b: %s)' % f_ok('i', 'b'),
+        'forall(i + 1, %s, 0, %s, lambda a, b: %s)' % (NQ, NR, k2_ok('a', 'b')),
+        'forall(j, %s, lambda b: %s)' % (NR, k2_ok('i', 'b'))])
+
+POL_FUNPARAMS = {'eval_spline_2d_cross': 'spline2d_cross', 'eval_spline_2d_scalar': 'spline2d_scalar'}
+EXPL_ENS = ['forall(0, %s, 0, %s, lambda a, b: %s)' % (NQ, NR, f_ok('a', 'b'))]
+
+CONTRACTS.update({
+    F + '::general_poloidal_advection_step_expl': dict(
+        funparams=POL_FUNPARAMS, requires=POL_REQ, modifies=['f'] + WORK, ensures=EXPL_ENS, loops=EXPL_LOOPS),
+    F + '::poloidal_advection_step_expl': dict(requires=POL_REQ, modifies=['f'] + WORK, ensures=EXPL_ENS),
+})
+
+
+# ---- implicit trapezoidal variant ---------------------------------------------------------------
+
+def impl_node(a, b, q1, r1, body):
+    """One implicit-trapezoid update of node (a, b) from the previous iterate (q1, r1) (q1 taken modulo 2*pi):
+    A, B = drift at the previous iterate (0 outside the radial domain); (Q2, R2) = new iterate, R2 clipped to the radial
+    domain; dq, dr = distance between the iterates (theta distance wrapped). body may use a0,b0,Q1,A,B,Q2,R2,dq,dr."""
+    return (
+        'let(S2(qPts[{a}], rPts[{b}], {P}, 0, 1) / rPts[{b}], lambda a0: '
+        'let(S2(qPts[{a}], rPts[{b}], {P}, 1, 0) / rPts[{b}], lambda b0: '
+        'let({q1} % (2 * pi), lambda Q1: '
+        'let((S2(Q1, {r1}, {P}, 0, 1) / {r1}) if (not ({r1} < rPts[0] or {r1} > {RM})) else 0.0, lambda A: '
+        'let((S2(Q1, {r1}, {P}, 1, 0) / {r1}) if (not ({r1} < rPts[0] or {r1} > {RM})) else 0.0, lambda B: '
+        'let((qPts[{a}] - (a0 + A) * ((dt / B0) * 0.5)) % (2 * pi), lambda Q2: '
+        'let(rPts[{b}] + (b0 + B) * ((dt / B0) * 0.5), lambda R2u: '
+        'let(rPts[0] if R2u < rPts[0] else ({RM} if R2u > {RM} else R2u), lambda R2: '
+        'let(abs(Q2 - Q1), lambda d0: let((2 * pi - d0) if d0 > pi else d0, lambda dq: '
+        'let(abs(R2 - {r1}), lambda dr: {body})))))))))))'
+    ).format(a=a, b=b, q1=q1, r1=r1, P=PHI, RM=RMAX, body=body)
+
+
+def conv(a, b, bound, q2='endPts_k2_q', r2='endPts_k2_r'):
+    return impl_node(a, b, 'pq[%s, %s]' % (a, b), 'pr[%s, %s]' % (a, b),
+                     '{q2}[{a}, {b}] == Q2 and {r2}[{a}, {b}] == R2 and dq <= {bd} and dr <= {bd}'.format(
+                         a=a, b=b, bd=bound, q2=q2, r2=r2))
+
+
+DIV0 = ('drPhi_0[{a}, {b}] == S2(qPts[{a}], rPts[{b}], %s, 0, 1) / rPts[{b}] and '
+        'dthetaPhi_0[{a}, {b}] == S2(qPts[{a}], rPts[{b}], %s, 1, 0) / rPts[{b}]' % (PHI, PHI))
+ALL_DIV0 = 'forall(0, %s, 0, %s, lambda a, b: %s)' % (NQ, NR, DIV0.format(a='a', b='b'))
+
+
+def fin(a, b):
+    return 'f[%s, %s] == %s' % (a, b, final_value('q2g[%s, %s]' % (a, b), 'r2g[%s, %s]' % (a, b)))
+
+
+K2G = 'endPts_k2_q[{a}, {b}] == q2g[{a}, {b}] and endPts_k2_r[{a}, {b}] == r2g[{a}, {b}]'
+K1P = 'endPts_k1_q[{a}, {b}] == pq[{a}, {b}] and endPts_k1_r[{a}, {b}] == pr[{a}, {b}]'
+CONV_ALL_TOL = 'forall(0, %s, 0, %s, lambda a, b: %s)' % (NQ, NR, conv('a', 'b', 'tol', 'q2g', 'r2g'))
+
+IMPL_LOOPS = {
+    'for i in range(nPts_q)': dict(inv=[
+        'forall(0, i, 0, %s, lambda a, b: %s)' % (NR, DIV0.format(a='a', b='b')),
+        'forall(i, %s, 0, %s, lambda a, b: %s)' % (NQ, NR, RAW.format(a='a', b='b'))]),
+    'for j in range(nPts_r)': dict(inv=[
+        'forall(0, i, 0, %s, lambda a, b: %s)' % (NR, DIV0.format(a='a', b='b')),
+        'forall(0, j, lambda b: %s)' % DIV0.format(a='i', b='b'),
+        'forall(i + 1, %s, 0, %s, lambda a, b: %s)' % (NQ, NR, RAW.format(a='a', b='b')),
+        'forall(j, %s, lambda b: %s)' % (NR, RAW.format(a='i', b='b'))]),
+    'while norm > tol': dict(
+        ghost={'pq': 'endPts_k1_q', 'pr': 'endPts_k1_r'}, ghost_iter={'pq': 'endPts_k1_q', 'pr': 'endPts_k1_r'},
+        inv=['implies(norm <= tol, forall(0, %s, 0, %s, lambda a, b: %s))' % (NQ, NR, conv('a', 'b', 'norm'))]),
+    'for i in range(nPts_q) #2': dict(inv=[
+        'norm >= 0',
+        'forall(0, i, 0, %s, lambda a, b: %s)' % (NR, conv('a', 'b', 'norm')),
+        'forall(i, %s, 0, %s, lambda a, b: %s)' % (NQ, NR, K1P.format(a='a', b='b'))]),
+    'for j in range(nPts_r) #2': dict(inv=[
+        'norm >= 0',
+        'forall(0, i, 0, %s, lambda a, b: %s)' % (NR, conv('a', 'b', 'norm')),
+        'forall(0, j, lambda b: %s)' % conv('i', 'b', 'norm'),
+        'forall(i + 1, %s, 0, %s, lambda a, b: %s)' % (NQ, NR, K1P.format(a='a', b='b')),
+        'forall(j, %s, lambda b: %s)' % (NR, K1P.format(a='i', b='b'))]),
+}
+for n_ in (3, 4):
+    sfx = ' #%d' % n_
+    IMPL_LOOPS['for i in range(nPts_q)' + sfx] = dict(
+        ghost={'q2g': 'endPts_k2_q', 'r2g': 'endPts_k2_r'},
+        inv=['forall(0, i, 0, %s, lambda a, b: %s)' % (NR, fin('a', 'b')),
+             'forall(i, %s, 0, %s, lambda a, b: %s)' % (NQ, NR, K2G.format(a='a', b='b'))])
+    IMPL_LOOPS['for j in range(nPts_r)' + sfx] = dict(inv=[
+        'forall(0, i, 0, %s, lambda a, b: %s)' % (NR, fin('a', 'b')),
+        'forall(0, j, lambda b: %s)' % fin('i', 'b'),
+        'forall(i + 1, %s, 0, %s, lambda a, b: %s)' % (NQ, NR, K2G.format(a='a', b='b')),
+        'forall(j, %s, lambda b: %s)' % (NR, K2G.format(a='i', b='b'))])
+
+GHOST_OUT = {'pq': (2, ['len(qPts)', 'len(rPts)']), 'pr': (2, ['len(qPts)', 'len(rPts)']),
+             'q2g': (2, ['len(qPts)', 'len(rPts)']), 'r2g': (2, ['len(qPts)', 'len(rPts)'])}
+# partial correctness: IF the iteration stops, the feet (q2g, r2g) are one trapezoid update of a previous iterate (pq, pr)
+# from which they differ by at most tol (a tol-approximate fixed point of the implicit trapezoidal rule), theta modulo 2*pi,
+# r clipped to the radial domain, and f is the boundary value / the 2-D spline of f there.  Termination is NOT decided.
+IMPL_ENS = [CONV_ALL_TOL, 'forall(0, %s, 0, %s, lambda a, b: %s)' % (NQ, NR, fin('a', 'b'))]
+
+CONTRACTS.update({
+    F + '::general_poloidal_advection_step_impl': dict(
+        funparams=POL_FUNPARAMS, requires=POL_REQ + ['tol >= 0'], modifies=['f'] + WORK, ensures=IMPL_ENS, loops=IMPL_LOOPS,
+        ghost_out=GHOST_OUT),
+    F + '::poloidal_advection_step_impl': dict(requires=POL_REQ + ['tol >= 0'], modifies=['f'] + WORK, ensures=IMPL_ENS,
+                                               ghost_out=GHOST_OUT),
+})
